@@ -9,6 +9,7 @@ import os, shutil, subprocess, sys, tempfile, json, time
 src = sys.argv[1]
 label = os.path.basename(os.path.normpath(src)).replace("benign-", "b")     # /tmp/benign-2 -> b2
 CHECKS = [f"C{n:02d}" for n in range(1, 21)]
+ONLY = [c for c in os.environ.get("BENIGN_ONLY", "").split(",") if c]     # re-run some checks and merge into the stored result
 for k in sys.argv[2:]:
     d = os.path.join(src, "out", k)
     dest = f"/verif/seeded/benign-{k}" if label == "b1" else f"/verif/seeded/benign-{label}-{k}"
@@ -17,7 +18,8 @@ for k in sys.argv[2:]:
     if os.path.exists(os.path.join(d, "notes.txt")):
         shutil.copy(os.path.join(d, "notes.txt"), dest)
     scratch = tempfile.mkdtemp(prefix="snt-benign-", dir="/var/tmp")
-    res = {"patch": os.path.relpath(os.path.join(dest, "patch.diff"), "/verif"), "kind": "behaviour-preserving", "checks": {}}
+    old = os.path.join(dest, "result.json")
+    res = json.load(open(old)) if ONLY and os.path.exists(old) else {"patch": os.path.relpath(os.path.join(dest, "patch.diff"), "/verif"), "kind": "behaviour-preserving", "checks": {}}
     try:
         shutil.rmtree(scratch)
         shutil.copytree("/repo", scratch, ignore=shutil.ignore_patterns(".git", "__pycache__"))
@@ -29,7 +31,7 @@ for k in sys.argv[2:]:
             t = subprocess.run(["/venv/bin/python", "-m", "pytest", "-q", "-p", "no:cacheprovider", "tests"], cwd=scratch, env=env, capture_output=True, text=True)
             res["tests"] = t.stdout.strip().splitlines()[-1] if t.stdout.strip() else t.stderr[-200:]
             env2 = dict(env, VERIF_REPO=scratch, VERIF_TIER="quick", VERIF_EVIDENCE_DIR=os.path.join(scratch, "evidence-trial"))
-            for c in CHECKS:
+            for c in (ONLY or CHECKS):
                 t0 = time.time()
                 r = subprocess.run(["./check", c, "--tier", "quick"], cwd="/verif", env=env2, capture_output=True, text=True)
                 viol = [l for l in r.stdout.splitlines() if l.startswith("VIOLATION")]
